@@ -139,6 +139,18 @@ Fixpoint ty_str (t : ty) : string :=
   | TBot => utf8_bot
   end.
 
+(* types/overload.go: canonical -- object fields sorted by name (function names kept) *)
+Fixpoint canon (t : ty) : ty :=
+  match t with
+  | TList e => TList (canon e)
+  | TMaybe e => TMaybe (canon e)
+  | TMap k v => TMap (canon k) (canon v)
+  | TTuple l => TTuple (map canon l)
+  | TObj fs => TObj (sort_kv (map (fun f => (fst f, canon (snd f))) fs))
+  | TFun n ps r => TFun n (map canon ps) (canon r)
+  | _ => t
+  end.
+
 (* ---- wire ---- *)
 Fixpoint enc_ty (t : ty) : sexp :=
   match t with
